@@ -197,3 +197,110 @@ def guardsCertified (names : List String) (guard : List Bool) (cert bounded : Li
   (List.zip names guard).all (fun p => !p.2 || cert.contains p.1 || bounded.contains p.1)
 
 end JanetModel.Depth
+
+/-! ### counter balance on the IR control-flow graph (all paths, loops included) -/
+namespace JanetModel.Depth
+
+/-- per guard with a ±1 memory counter: net charges per block (`delta`), UNTRUSTED label `level` = charges outstanding
+    when the block is entered, live blocks, blocks that never continue, return blocks, recursive calls with the level there -/
+structure BalCert where
+  fn : String
+  counter : String
+  n : Nat
+  cfg : List (Nat × Nat)
+  level : List Int
+  delta : List Int
+  live : Nat
+  stops : Nat
+  rets : List Nat
+  calls : List (Nat × Int)
+
+def lvl (c : BalCert) (b : Nat) : Int := c.level.getD b 0
+def dlt (c : BalCert) (b : Nat) : Int := c.delta.getD b 0
+def isRet (c : BalCert) (b : Nat) : Bool := c.rets.any (fun r => Nat.beq r b)
+
+/-- an edge on which a charge is kept: into a return block, arriving with more charges outstanding than the block's label
+    (an early error return; the counter is re-initialised by the next top-level entry) -/
+def isLeak (c : BalCert) (e : Nat × Nat) : Bool :=
+  inMask c.live e.1 && !(inMask c.stops e.1) && isRet c e.2 && decide (lvl c e.2 < lvl c e.1 + dlt c e.1)
+
+def leakCount (c : BalCert) : Nat := (c.cfg.filter (isLeak c)).length
+
+def balEdgeOK (c : BalCert) (e : Nat × Nat) : Bool :=
+  !(inMask c.live e.1) || inMask c.stops e.1 ||
+  (inMask c.live e.2 &&
+    (if isRet c e.2 then decide (lvl c e.2 ≤ lvl c e.1 + dlt c e.1) else decide (lvl c e.2 = lvl c e.1 + dlt c e.1)))
+
+/-- the balance check (kernel-evaluated): labels consistent along every live edge, 0 at the entry, never negative,
+    every return block ends at 0 and changes nothing -/
+def balOK (c : BalCert) : Bool :=
+  inMask c.live 0 && decide (lvl c 0 = 0) &&
+  c.cfg.all (fun e => Nat.ble (e.1 + 1) c.n && Nat.ble (e.2 + 1) c.n && balEdgeOK c e) &&
+  (List.range c.n).all (fun b => !(inMask c.live b) || decide (0 ≤ lvl c b)) &&
+  c.rets.all (fun r => decide (lvl c r = 0) && decide (dlt c r = 0))
+
+/-- recursive calls made with no charge of THIS counter taken (must be justified one by one: see `unchargedAllowed`) -/
+def unchargedCount (c : BalCert) : Nat := (c.calls.filter (fun p => decide (p.2 < 1))).length
+
+/-- net charges on a path, the last block excluded -/
+def pathDelta (c : BalCert) : List Nat → Int
+  | [] => 0
+  | [_] => 0
+  | a :: b :: rest => dlt c a + pathDelta c (b :: rest)
+
+def lastOf : Nat → List Nat → Nat
+  | a, [] => a
+  | _, b :: rest => lastOf b rest
+
+/-- a path on which execution continues: CFG edges, no block but the last is a stop -/
+def LiveB (c : BalCert) (p : List Nat) : Prop := ∀ e ∈ pairs p, e ∈ c.cfg ∧ inMask c.stops e.1 = false
+
+/-- ★ on EVERY live path from a live block the label at its end is at most the label at its start plus the net charges
+    taken on the way, and is never negative: nowhere on any path has more been released than was charged -/
+theorem bal_path_le (c : BalCert) (hok : balOK c = true) :
+    ∀ (p : List Nat) (a : Nat), a < c.n → inMask c.live a = true → LiveB c (a :: p) →
+      lvl c (lastOf a p) ≤ lvl c a + pathDelta c (a :: p) ∧ 0 ≤ lvl c (lastOf a p) ∧ inMask c.live (lastOf a p) = true := by
+  have hedge : ∀ e ∈ c.cfg, (Nat.ble (e.1 + 1) c.n && Nat.ble (e.2 + 1) c.n && balEdgeOK c e) = true := by
+    simp only [balOK, Bool.and_eq_true, List.all_eq_true] at hok
+    intro e he
+    have := hok.1.1.2 e he
+    simp only [Bool.and_eq_true]
+    exact this
+  have hnn : ∀ b, b < c.n → inMask c.live b = true → 0 ≤ lvl c b := by
+    intro b hb hl
+    simp only [balOK, Bool.and_eq_true, List.all_eq_true, List.mem_range] at hok
+    have := hok.1.2 b hb
+    rw [hl] at this
+    simpa using this
+  intro p
+  induction p with
+  | nil =>
+    intro a han ha _
+    exact ⟨by simp [lastOf, pathDelta], hnn a han ha, ha⟩
+  | cons b rest ih =>
+    intro a _ ha hlive
+    have he : (a, b) ∈ pairs (a :: b :: rest) := by simp [pairs]
+    have h1 := hlive (a, b) he
+    have hc0 := hedge (a, b) h1.1
+    simp only [Bool.and_eq_true] at hc0
+    have hbn : b < c.n := by
+      have := Nat.le_of_ble_eq_true hc0.1.2
+      omega
+    have hc := hc0.2
+    simp only [balEdgeOK, Bool.or_eq_true, Bool.not_eq_true', Bool.and_eq_true] at hc
+    have hb : inMask c.live b = true ∧ lvl c b ≤ lvl c a + dlt c a := by
+      rcases hc with (hc | hc) | hc
+      · rw [ha] at hc; exact Bool.noConfusion hc
+      · rw [h1.2] at hc; exact Bool.noConfusion hc
+      · refine ⟨hc.1, ?_⟩
+        have h2 := hc.2
+        cases hr : isRet c b with
+        | true => simp [hr] at h2; exact h2
+        | false => simp [hr] at h2; omega
+    have ih' := ih b hbn hb.1 (fun e he => hlive e (pairs_cons_mem he))
+    refine ⟨?_, ih'.2.1, ih'.2.2⟩
+    simp only [lastOf, pathDelta]
+    have := ih'.1
+    omega
+
+end JanetModel.Depth
